@@ -554,6 +554,8 @@ class C12(Property):
         "Flatland.C12.Proofs.form_roundtrip_generator_total",
         "Flatland.C12.Proofs.form_roundtrip_fresh_generator",
         "Flatland.C12.Proofs.prepareTag_of_renders",
+        "Flatland.C12.Proofs.natRepr_eq_slotName",
+        "Flatland.C12.Proofs.renderForm_binds",
         "Flatland.C12.Proofs.exForm_ok",
         "Flatland.C12.Proofs.exForm_posts",
         "Flatland.C12.Proofs.exForm_posts_generator",
